@@ -468,7 +468,7 @@ def gen_consts() -> str:
 GEN_FILES = {
     "ConstsGen.v": gen_consts,
     "ErrorsGen.v": gen_errors,
-    "BatchingGen.v": gen_batching,
+    "BatchingGen.v": gen_batching,   # superseded by the plug-in harness/translate_c13.py (loaded later)
     "VersionsGen.v": gen_versions,
 }
 
